@@ -16,7 +16,7 @@ for pid in ids:
         sp = importlib.util.spec_from_file_location('o' + pid, p); spec = importlib.util.module_from_spec(sp); sp.loader.exec_module(spec)
     if spec is not None and spec.PROPERTY.get('claim', True):
         P = spec.PROPERTY
-        checks.append(dict(property_id=pid, quick_cmd='./check %s --tier quick' % pid, thorough_cmd='./check %s --tier thorough' % pid,
+        checks.append(dict(property_id=pid, quick_cmd='./check %s --tier quick' % pid, thorough_cmd=('VF_JOBS=%d ' % P['jobs_thorough'] if P.get('jobs_thorough') else '') + './check %s --tier thorough' % pid,
                            evidence_file='evidence/%s.json' % pid, replay_cmd_template='./check %s --replay {path}' % pid, engine='ir2c-cbmc',
                            level_claimed=dict(category=P.get('level', 'model_checking'), text=P['level_text'], design_ref=P.get('design_ref', 'DESIGN.md section 3, ' + pid)),
                            level_note=P['level_note'],
